@@ -76,6 +76,8 @@ def gen():
     ob = body_of(openmp, r"void\s+openmpParser::afterParsing\(\)\s*\{", "openmpParser::afterParsing")
     if not re.match(r"\s*serialParser::afterParsing\(\);\s*if\s*\(\s*!success\s*\)\s*return;", ob):
         raise TranslateError("openmpParser::afterParsing does not start with serialParser::afterParsing(); if (!success) return;")
+    if re.search(r"okl/validate", openmp) or re.search(r"okl/validate", read("openmp.hpp")):
+        raise TranslateError("openmp.cpp/.hpp touch the okl/validate setting")
     via.append(("openmp", "delegates", "serial"))
     for mode, cls, base in [("cuda", "cudaParser", "withLauncher"), ("hip", "hipParser", "cudaParser"),
                             ("opencl", "openclParser", "withLauncher"), ("metal", "metalParser", "withLauncher"),
